@@ -226,7 +226,9 @@ def evaluate_form_spec(spec, workdir, itypes=("cell",), scalar_type="float64", o
                 A0 = inputs.coefficient_values(inputs.rng_for(dseed, 91), int(np.prod(Aref.shape)) if Aref.ndim else 1, fr.complex).reshape(Aref.shape)
                 A, problems, ncalled, idxs = fr.run_group(itype, sid, data, entity=ent, A0=A0)
                 what = None
+                kind = "mismatch"
                 if ncalled == 0:
+                    kind = "no-kernel"
                     what = f"no kernel registered under ({itype}, {sid}) for entity {ent} although the form declares one"
                 elif problems:
                     what = f"kernel ({itype},{sid}) entity {ent}: " + "; ".join(problems)
@@ -239,7 +241,7 @@ def evaluate_form_spec(spec, workdir, itypes=("cell",), scalar_type="float64", o
                                 f"max|A-Aref| = {np.nanmax(np.abs(d - Aref)):.3e}, max|Aref| = {np.max(np.abs(Aref)):.3e}")
                 if what:
                     tags = ",".join(spec.get("_tags", []))
-                    bucket = f"{prop}:mismatch:{itype}:{cellname}:{tags}"
+                    bucket = f"{prop}:{kind}:{itype}:{cellname}"
                     rp = dict(replay_base, itype=itype, subdomain_id=sid, entity=list(ent), data_seed=dseed, input_index=k)
                     return Outcome("violation", case_id=h, classes=classes, key=f"{prop}:{h}", bucket=bucket, what=what, replay=rp, sample=sample)
                 checked += 1
